@@ -80,3 +80,129 @@ def plan_for(prop, tier):  # noqa: F811
     if prop == "C05":
         return _e2_plan(prop, tier)
     return _plan_for_e1(prop, tier)
+
+
+E3_RULE = (
+    "E3 pool-sim: one run = one generated project tree (2-8 modules in 1-3 folders built from corpus snippets, "
+    "generated modules, exported definitions, optional import edges between the modules, twins, skip_file files, "
+    "an optional unparsable file) formatted by the real CLI once sequentially (SimPool(1), reference) and then under "
+    "several seeded schedules: n_cores in {1,2,3,4,5,8,16}, shuffled / duplicated / directory path arguments, seeded "
+    "chunk->worker assignment, seeded order of every file-system operation of the real forked workers (uniform, "
+    "PCT-style with pre-emptions, reader-chases-writer), flush granule in {4096, 8192, 65536}. distinct = distinct "
+    "(tree, reads-from map) pairs, the reads-from map saying for every task which version of which other file each of "
+    "its reads observed; non-trivial = a multi-worker schedule or a task with at least one cross-file read."
+)
+
+
+def _e3_plan(prop, tier):
+    q = tier == "quick"
+    base = {"engine": "e3_pool", "timeout": 900.0}
+    if prop == "C06":
+        return {
+            "rule": E3_RULE,
+            "batches": [
+                dict(base, label="pool-base", n=110 if q else 6000, kwargs={"profile": "base", "schedules": 3 if q else 6}),
+                dict(base, label="pool-edges", n=70 if q else 4000, kwargs={"profile": "edges", "schedules": 3 if q else 6}),
+            ],
+            "probes": ["fs.READ", "schedules", "parent_writes"],
+            "assumptions": [
+                "workers share nothing but the file system, so serialising at file-system operations explores all behaviours (DESIGN 2.3)",
+                "SimPool follows CPython 3.12 pool.py for chunking, ordering and error propagation",
+                "runs in which the sequential reference itself raises are compared on raised / not raised only",
+            ],
+        }
+    if prop == "C09":
+        return {
+            "rule": E3_RULE + " Profile converge: trees without import edges; the CLI is re-run on its own output until six applications are reached. "
+                    "E2 chains: every vendored example input (sweep; quick covers the slices the tier's index count reaches) and seeded inputs are formatted six times in a row on their own output inside "
+                    "one long-lived process, chains interleaved, drawn options and cache knobs; f^5(x) == f^6(x), no text comes back, a fixed point is never left, and every application equals the same call in a fresh process. "
+                    "For the chain batches distinct = (entry point, cache-state class, knob table), non-trivial = the judged application hit a parse-cache entry an earlier operation had touched.",
+            "batches": [
+                dict(base, label="pool-converge", n=60 if q else 4000, kwargs={"profile": "converge", "schedules": 2}),
+                {"engine": "e2_history", "label": "chains-sweep", "n": 96 if q else 344, "indexed": True, "kwargs": {"chains": True}, "timeout": 1200.0},
+                {"engine": "e2_history", "label": "chains", "n": 60 if q else 6000, "kwargs": {"chains": True}, "timeout": 900.0},
+            ],
+            "probes": ["converge.follow_up_runs", "converge.files_followed", "chains.checked", "chains.input_changed"],
+            "assumptions": ["on trees without import edges between formatted files a file's pass sequence is exactly x, f(x), f(f(x)), ..."],
+        }
+    return None
+
+
+_plan_prev = plan_for
+
+
+def plan_for(prop, tier):  # noqa: F811
+    return _e3_plan(prop, tier) or _plan_prev(prop, tier)
+
+
+def _c20_plan(prop, tier):
+    q = tier == "quick"
+    return {
+        "rule": (
+            "C20: (a) E1 txn-sim runs (scheduler back-end: a transaction touching an ignored line is dropped whole, every "
+            "ignored physical line verbatim after any pass incl. rollbacks and re-indentation); (b) E5: skip_file texts "
+            "through format_code with drawn options and through the stdin mode with recording streams, ignore comments on "
+            "drawn lines of corpus / generated inputs through format_code, and synthetic removals / replacements / "
+            "additions / moves through the direct back-end alter_code; (c) E3 pool-sim profile optout: trees where up to "
+            "half of the files carry skip_file, formatted by the real CLI under seeded schedules - zero write events, "
+            "bytes unchanged, falsy task result. distinct = distinct (workload kind, input) pairs resp. conflict / "
+            "reads-from signatures; non-trivial = the input was changed by the formatter (so a rule had a reason to fire), "
+            "or an edit / transaction touches an ignored line."
+        ),
+        "batches": [
+            {"engine": "e1_txn", "label": "txn", "n": 2500 if q else 200000, "timeout": 120.0},
+            {"engine": "e5_optout", "label": "optout", "n": 1500 if q else 60000, "timeout": 300.0},
+            {"engine": "e3_pool", "label": "pool-optout", "n": 40 if q else 3000, "kwargs": {"profile": "optout", "schedules": 2}, "timeout": 900.0},
+        ],
+        "probes": ["drop.ignored_line", "ignored_lines_checked", "skip.stdin_checked", "fault.edit_touches_ignored_line", "optout.skip_files_checked", "ignore.inputs_that_changed"],
+        "assumptions": [
+            "stdin mode: the single newline that print() appends to every answer is framing, not a rewrite",
+            "the end-to-end ignore clause is sampled over the vendored corpus and generators (it depends on which rules a text triggers)",
+        ],
+    }
+
+
+_plan_prev2 = plan_for
+
+
+def plan_for(prop, tier):  # noqa: F811
+    if prop == "C20":
+        return _c20_plan(prop, tier)
+    return _plan_prev2(prop, tier)
+
+
+def _c03_plan(prop, tier):
+    q = tier == "quick"
+    return {
+        "rule": (
+            "C03: (a) E1 txn-sim with injected unparsable replacements: the text returned by fix / chain always parses and a "
+            "poisoned pass returns its input; (b) E3 pool-sim profile stagefault: inside every worker one late stage of "
+            "format_code (sort_imports, fix_line_lengths, remove_unused_imports or simplify_assign_immediate_return, drawn) "
+            "returns its result with an unbalanced bracket appended on drawn calls, so format_code itself returns broken text "
+            "and the write guard is the only thing between it and the disk; at every write (old bytes, new bytes) are "
+            "recorded by the file-system seam: valid old => valid new, and new != old; (c) the same monitor on fault-free "
+            "E3 runs; (d) E2 histories: every text returned by format_code, a rule or sub/subn for a parsable input parses. "
+            "distinct = union of the engines' signatures; non-trivial as defined per engine (conflict / fault present, "
+            "multi-worker or cross-read schedule, warm cache entry hit)."
+        ),
+        "batches": [
+            {"engine": "e1_txn", "label": "txn", "n": 2500 if q else 150000, "timeout": 120.0},
+            {"engine": "e3_pool", "label": "pool-stagefault", "n": 60 if q else 4000, "kwargs": {"profile": "stagefault", "schedules": 2}, "timeout": 900.0},
+            {"engine": "e3_pool", "label": "pool-base", "n": 30 if q else 2000, "kwargs": {"profile": "base", "schedules": 2}, "timeout": 900.0},
+            {"engine": "e2_history", "label": "hist", "n": 150 if q else 8000, "timeout": 600.0},
+        ],
+        "probes": ["fault.rollback_taken_poison", "guard.writes_checked", "fault.stage_fault_suppressed_by_guard", "O5.valid_in_checked", "guard.original_invalid_written"],
+        "assumptions": [
+            "the universal claim over all input texts is only sampled (corpus + generators); what is decided by simulation are the effect / recovery clauses: pass rollback under faults, the write guard, the no-rewrite rule",
+            "the injected stage fault stands for 'a rule misbehaves'; the text format_code returns under it is broken by construction and not judged",
+        ],
+    }
+
+
+_plan_prev3 = plan_for
+
+
+def plan_for(prop, tier):  # noqa: F811
+    if prop == "C03":
+        return _c03_plan(prop, tier)
+    return _plan_prev3(prop, tier)
